@@ -545,7 +545,7 @@ def workloads(thorough, rng=None):
             if sd < 3:
                 emb.append(("emb-policy-stream-%d" % sd, [262144 << sd, 0, 0, 500 + sd, 16, 4], False))
             if sd < 6:
-                emb.append(("emb-growth-stream-%d" % sd, [65536 << (sd % 3), 0, 4 + sd % 3, 400 + sd, 16, 3], False))
+                emb.append(("emb-growth-stream-%d" % sd, [65536 << (sd % 2), 0, 3 + sd % 3, 400 + sd, 16, 3], False))
     for (nm, a, steady) in emb:
         ws.append((nm, "emb", [str(x) for x in a], [], steady, ("all",)))
     ws.sort(key=lambda w: w[1] != "emb")          # the small complete replays first
@@ -601,6 +601,16 @@ def prescan(trace):
     return cum, n
 
 
+def _big_stack():
+    """the extracted functions are not tail recursive and a filled segment is one run of up to a million objects"""
+    import resource
+    try:
+        soft, hard = resource.getrlimit(resource.RLIMIT_STACK)
+        resource.setrlimit(resource.RLIMIT_STACK, (hard, hard))
+    except (ValueError, OSError):
+        pass
+
+
 def check_trace(ctx, exe, w, consts, steady, window=("suffix", 40000), model_timeout=600, dump_stats=None):
     """replay one workload's trace; window = ("prefix", n): from the heap's creation, n allocations;
     ("suffix", n): from the latest sweep that leaves at least n allocations to replay; ("all",)"""
@@ -639,7 +649,8 @@ def check_trace(ctx, exe, w, consts, steady, window=("suffix", 40000), model_tim
     truncated = False
     with open(base + ".req") as fi, open(base + ".ans", "w") as fo:
         try:
-            r = subprocess.run([exe], stdin=fi, stdout=fo, stderr=subprocess.PIPE, timeout=model_timeout)
+            r = subprocess.run([exe], stdin=fi, stdout=fo, stderr=subprocess.PIPE, timeout=model_timeout, preexec_fn=_big_stack,
+                               env=dict(os.environ, OCAMLRUNPARAM="l=4G"))
         except subprocess.TimeoutExpired:
             truncated = True
             r = subprocess.CompletedProcess([exe], 0, b"", b"")
